@@ -18,7 +18,7 @@ C05_MODULES = ["contracts.core_models", "contracts.c09_arith", "contracts.c09_bo
 
 C13_MODULES = ["contracts.core_models", "contracts.c09_bounded", "contracts.c13_types", "contracts.c13_views"]
 
-C06_MODULES = C05_MODULES + ["contracts.c13_types", "contracts.c13_views", "contracts.c06_names", "contracts.c06_ports", "contracts.c06_stmts", "contracts.c02_ops"]
+C06_MODULES = C05_MODULES + ["contracts.c13_types", "contracts.c13_views", "contracts.c06_names", "contracts.c06_ports", "contracts.c06_stmts", "contracts.c06_literals", "contracts.c02_ops"]
 
 C02_MODULES = C05_MODULES + ["contracts.c13_types", "contracts.c13_views", "contracts.c02_ops", "contracts.c02_frontend", "contracts.c02_replace", "contracts.c02_assembler", "contracts.c03_lowering"]
 
